@@ -564,6 +564,420 @@ theorem cmpInt_spec (xs ys : List Bool) (c : Bool) (hl : xs.length = ys.length) 
     · intro h; omega
   · simp only [hcastEq]
 
+/-- The relation a comparator kind decides. -/
+def CmpKind.relNat : CmpKind → Nat → Nat → Bool
+  | .gt, X, Y => decide (Y < X)
+  | .ge, X, Y => decide (Y ≤ X)
+  | .lt, X, Y => decide (X < Y)
+  | .le, X, Y => decide (X ≤ Y)
+
+def CmpKind.relInt : CmpKind → Int → Int → Bool
+  | .gt, X, Y => decide (Y < X)
+  | .ge, X, Y => decide (Y ≤ X)
+  | .lt, X, Y => decide (X < Y)
+  | .le, X, Y => decide (X ≤ Y)
+
+theorem cmpNat_false (X Y : Nat) : cmpNat X Y false = decide (Y < X) := by simp [cmpNat]
+theorem cmpNat_true (X Y : Nat) : cmpNat X Y true = decide (Y ≤ X) := by
+  simp only [cmpNat, Bool.and_true]
+  rw [Bool.eq_iff_iff]; simp only [Bool.or_eq_true, decide_eq_true_eq]; omega
+
+theorem ucomparator_spec {s : St} {inp : List Bool} (hwf : WF s inp) (k : CmpKind) {x y : List Nat}
+    (hx : Bnd s x) (hy : Bnd s y) :
+    Spec inp s (comparator false k x y) (fun z s' => Bnd s' z ∧
+      busVal s' inp z = [k.relNat (toNat (busVal s inp x)) (toNat (busVal s inp y))]) := by
+  cases k <;> simp only [comparator, Bool.false_eq_true, if_false]
+  · refine Spec.bind (zeroWire_spec hwf) ?_
+    intro c s1 e1 hc
+    refine (uintComparator_spec e1.wf (hx.mono e1) (hy.mono e1) hc.1).mono ?_
+    intro z s2 _ ⟨hb, hv⟩
+    exact ⟨hb, by rw [hv, hc.2, cmpNat_false, busVal_ext e1 hx, busVal_ext e1 hy]; rfl⟩
+  · refine Spec.bind (oneWire_spec hwf) ?_
+    intro c s1 e1 hc
+    refine (uintComparator_spec e1.wf (hx.mono e1) (hy.mono e1) hc.1).mono ?_
+    intro z s2 _ ⟨hb, hv⟩
+    exact ⟨hb, by rw [hv, hc.2, cmpNat_true, busVal_ext e1 hx, busVal_ext e1 hy]; rfl⟩
+  · refine Spec.bind (zeroWire_spec hwf) ?_
+    intro c s1 e1 hc
+    refine (uintComparator_spec e1.wf (hy.mono e1) (hx.mono e1) hc.1).mono ?_
+    intro z s2 _ ⟨hb, hv⟩
+    exact ⟨hb, by rw [hv, hc.2, cmpNat_false, busVal_ext e1 hx, busVal_ext e1 hy]; rfl⟩
+  · refine Spec.bind (oneWire_spec hwf) ?_
+    intro c s1 e1 hc
+    refine (uintComparator_spec e1.wf (hy.mono e1) (hx.mono e1) hc.1).mono ?_
+    intro z s2 _ ⟨hb, hv⟩
+    exact ⟨hb, by rw [hv, hc.2, cmpNat_true, busVal_ext e1 hx, busVal_ext e1 hy]; rfl⟩
+
+theorem icomparator_spec {s : St} {inp : List Bool} (hwf : WF s inp) (k : CmpKind) {x y : List Nat}
+    (hx : Bnd s x) (hy : Bnd s y) (hne : 0 < max x.length y.length) :
+    Spec inp s (comparator true k x y) (fun z s' => Bnd s' z ∧
+      busVal s' inp z = [k.relInt (toInt (padTo (busVal s inp x) (max x.length y.length)))
+        (toInt (padTo (busVal s inp y) (max x.length y.length)))]) := by
+  have hnx : padTo (busVal s inp x) (max x.length y.length) ≠ [] := by
+    intro h; have := congrArg List.length h; simp only [padTo_length, busVal_length, List.length_nil] at this; omega
+  have hny : padTo (busVal s inp y) (max x.length y.length) ≠ [] := by
+    intro h; have := congrArg List.length h; simp only [padTo_length, busVal_length, List.length_nil] at this; omega
+  have hlxy : (padTo (busVal s inp x) (max x.length y.length)).length =
+      (padTo (busVal s inp y) (max x.length y.length)).length := by simp; omega
+  have hcomm : max y.length x.length = max x.length y.length := Nat.max_comm _ _
+  cases k <;> simp only [comparator, if_true]
+  · refine Spec.bind (zeroWire_spec hwf) ?_
+    intro c s1 e1 hc
+    refine (intComparator_spec e1.wf (hx.mono e1) (hy.mono e1) hc.1 hne).mono ?_
+    intro z s2 _ ⟨hb, hv⟩
+    refine ⟨hb, ?_⟩
+    rw [hv, hc.2, busVal_ext e1 hx, busVal_ext e1 hy, cmpInt_spec _ _ _ hlxy hnx]
+    simp [CmpKind.relInt]
+  · refine Spec.bind (oneWire_spec hwf) ?_
+    intro c s1 e1 hc
+    refine (intComparator_spec e1.wf (hx.mono e1) (hy.mono e1) hc.1 hne).mono ?_
+    intro z s2 _ ⟨hb, hv⟩
+    refine ⟨hb, ?_⟩
+    rw [hv, hc.2, busVal_ext e1 hx, busVal_ext e1 hy, cmpInt_spec _ _ _ hlxy hnx]
+    simp only [CmpKind.relInt, Bool.and_true, List.cons.injEq, and_true]
+    rw [Bool.eq_iff_iff]; simp only [Bool.or_eq_true, decide_eq_true_eq]; omega
+  · refine Spec.bind (zeroWire_spec hwf) ?_
+    intro c s1 e1 hc
+    refine (intComparator_spec e1.wf (hy.mono e1) (hx.mono e1) hc.1 (by omega)).mono ?_
+    intro z s2 _ ⟨hb, hv⟩
+    refine ⟨hb, ?_⟩
+    rw [hv, hc.2, busVal_ext e1 hx, busVal_ext e1 hy, hcomm, cmpInt_spec _ _ _ hlxy.symm hny]
+    simp [CmpKind.relInt]
+  · refine Spec.bind (oneWire_spec hwf) ?_
+    intro c s1 e1 hc
+    refine (intComparator_spec e1.wf (hy.mono e1) (hx.mono e1) hc.1 (by omega)).mono ?_
+    intro z s2 _ ⟨hb, hv⟩
+    refine ⟨hb, ?_⟩
+    rw [hv, hc.2, busVal_ext e1 hx, busVal_ext e1 hy, hcomm, cmpInt_spec _ _ _ hlxy.symm hny]
+    simp only [CmpKind.relInt, Bool.and_true, List.cons.injEq, and_true]
+    rw [Bool.eq_iff_iff]; simp only [Bool.or_eq_true, decide_eq_true_eq]; omega
+
+/-! ### multiplexer and bitwise operations -/
+
+theorem muxBits_spec {inp : List Bool} (l : List (Nat × Nat)) :
+    ∀ {s : St} (_ : WF s inp) (cond : Nat), BndP s l → cond < s.next →
+    Spec inp s (muxBits cond l) (fun z s' => Bnd s' z ∧
+      busVal s' inp z = (pairVals s inp l).map fun p => if s.val inp cond then p.1 else p.2) := by
+  induction l with
+  | nil => intro s hwf cond _ _; exact Spec.pure hwf ⟨Bnd.nil s, rfl⟩
+  | cons p rest ih =>
+    intro s hwf cond hl hc
+    obtain ⟨t, f⟩ := p
+    simp only [muxBits]
+    have htf := hl.head
+    have Ht : Holds s inp t (s.val inp t) := ⟨htf.1, rfl⟩
+    have Hf : Holds s inp f (s.val inp f) := ⟨htf.2, rfl⟩
+    have Hc : Holds s inp cond (s.val inp cond) := ⟨hc, rfl⟩
+    refine Spec.bind (gate_spec .xor hwf Hf Ht) ?_
+    intro w1 s1 e1 h1
+    refine Spec.bind (gate_spec .and e1.wf h1 (Hc.mono e1)) ?_
+    intro w2 s2 e2 h2
+    refine Spec.bind (gate_spec .xor e2.wf h2 ((Hf.mono e1).mono e2)) ?_
+    intro o s3 e3 ho
+    have e13 := (e1.trans e2).trans e3
+    refine Spec.bind (ih e3.wf cond (hl.tail.mono e13) (Nat.lt_of_lt_of_le hc e13.next)) ?_
+    intro r s4 e4 ⟨hr, hrv⟩
+    refine Spec.pure e4.wf ⟨Bnd.cons (ho.mono e4).1 hr, ?_⟩
+    simp only [busVal_cons, (ho.mono e4).2, hrv, pairVals_ext e13 hl.tail, e13.val cond hc, pairVals_cons,
+      List.map_cons, eval_xor, eval_and]
+    congr 1
+    cases s.val inp cond <;> cases s.val inp t <;> cases s.val inp f <;> rfl
+
+theorem map_zip_eq_zipWith {α β γ : Type} (g : α → β → γ) : ∀ (xs : List α) (ys : List β),
+    (xs.zip ys).map (fun p => g p.1 p.2) = List.zipWith g xs ys
+  | [], _ => by simp
+  | _ :: _, [] => by simp
+  | x :: xs, y :: ys => by simp [map_zip_eq_zipWith g xs ys]
+
+theorem bitwise_spec {inp : List Bool} (f : Nat → Nat → BM Nat) (g : Bool → Bool → Bool)
+    (hf : ∀ (s : St) (a b : Nat), WF s inp → a < s.next → b < s.next →
+      Spec inp s (f a b) (fun o s' => Holds s' inp o (g (s.val inp a) (s.val inp b))))
+    (l : List (Nat × Nat)) :
+    ∀ {s : St} (_ : WF s inp), BndP s l →
+    Spec inp s (bitwise f l) (fun z s' => Bnd s' z ∧
+      busVal s' inp z = (pairVals s inp l).map fun p => g p.1 p.2) := by
+  induction l with
+  | nil => intro s hwf _; exact Spec.pure hwf ⟨Bnd.nil s, rfl⟩
+  | cons p rest ih =>
+    intro s hwf hl
+    obtain ⟨a, b⟩ := p
+    simp only [bitwise]
+    refine Spec.bind (hf s a b hwf hl.head.1 hl.head.2) ?_
+    intro o s1 e1 ho
+    refine Spec.bind (ih e1.wf (hl.tail.mono e1)) ?_
+    intro r s2 e2 ⟨hr, hrv⟩
+    refine Spec.pure e2.wf ⟨Bnd.cons (ho.mono e2).1 hr, ?_⟩
+    simp [busVal_cons, (ho.mono e2).2, hrv, pairVals_ext e1 hl.tail]
+
+/-- `NewBinaryAND/OR/XOR/Clear`: bit `i` of the result is the operation on bit
+`i` of the (zero padded) operands, for every result width up to the operand
+width. -/
+theorem binaryOp_spec {s : St} {inp : List Bool} (hwf : WF s inp) (f : Nat → Nat → BM Nat)
+    (g : Bool → Bool → Bool)
+    (hf : ∀ (s : St) (a b : Nat), WF s inp → a < s.next → b < s.next →
+      Spec inp s (f a b) (fun o s' => Holds s' inp o (g (s.val inp a) (s.val inp b))))
+    {x y : List Nat} (nz : Nat) (hx : Bnd s x) (hy : Bnd s y) :
+    Spec inp s (binaryOp f x y nz) (fun z s' => Bnd s' z ∧
+      busVal s' inp z = List.zipWith g ((padTo (busVal s inp x) (max x.length y.length)).take nz)
+        ((padTo (busVal s inp y) (max x.length y.length)).take nz)) := by
+  unfold binaryOp
+  refine Spec.bind (zeroPad_spec hwf hx hy) ?_
+  intro p s1 e1 ⟨hp1, hp2, hv1, hv2⟩
+  refine (bitwise_spec f g hf _ e1.wf (BndP.zip (hp1.take nz) (hp2.take nz))).mono ?_
+  intro z s2 _ ⟨hb, hv⟩
+  refine ⟨hb, ?_⟩
+  rw [hv, pairVals_zip, busVal_take, busVal_take, hv1, hv2, map_zip_eq_zipWith]
+
+theorem gateF_spec {inp : List Bool} (op : Op) (s : St) (a b : Nat) (hwf : WF s inp) (ha : a < s.next)
+    (hb : b < s.next) :
+    Spec inp s (gate op a b) (fun o s' => Holds s' inp o (op.eval (s.val inp a) (s.val inp b))) :=
+  gate_spec op hwf ⟨ha, rfl⟩ ⟨hb, rfl⟩
+
+theorem orF_spec {inp : List Bool} (s : St) (a b : Nat) (hwf : WF s inp) (ha : a < s.next) (hb : b < s.next) :
+    Spec inp s (or a b) (fun o s' => Holds s' inp o (s.val inp a || s.val inp b)) :=
+  or_spec hwf ⟨ha, rfl⟩ ⟨hb, rfl⟩
+
+theorem clearF_spec {inp : List Bool} (s : St) (a b : Nat) (hwf : WF s inp) (ha : a < s.next)
+    (hb : b < s.next) :
+    Spec inp s (do let w ← inv b; gate .and a w) (fun o s' => Holds s' inp o (s.val inp a && !s.val inp b)) := by
+  refine Spec.bind (inv_spec hwf ⟨hb, rfl⟩) ?_
+  intro w s1 e1 hw
+  exact gate_spec .and e1.wf (Holds.mono e1 ⟨ha, rfl⟩) hw
+
+/-! ### equality -/
+
+theorem xnorBits_spec {inp : List Bool} (l : List (Nat × Nat)) :
+    ∀ {s : St} (_ : WF s inp), BndP s l →
+    Spec inp s (xnorBits l) (fun z s' => Bnd s' z ∧
+      busVal s' inp z = (pairVals s inp l).map fun p => p.1 == p.2) := by
+  induction l with
+  | nil => intro s hwf _; exact Spec.pure hwf ⟨Bnd.nil s, rfl⟩
+  | cons p rest ih =>
+    intro s hwf hl
+    obtain ⟨a, b⟩ := p
+    simp only [xnorBits]
+    refine Spec.bind (gateF_spec .xnor s a b hwf hl.head.1 hl.head.2) ?_
+    intro o s1 e1 ho
+    refine Spec.bind (ih e1.wf (hl.tail.mono e1)) ?_
+    intro r s2 e2 ⟨hr, hrv⟩
+    refine Spec.pure e2.wf ⟨Bnd.cons (ho.mono e2).1 hr, ?_⟩
+    simp [busVal_cons, (ho.mono e2).2, hrv, pairVals_ext e1 hl.tail]
+
+theorem andPairs_spec {inp : List Bool} : ∀ (l : List Nat) {s : St} (_ : WF s inp), Bnd s l →
+    Spec inp s (andPairs l) (fun z s' => Bnd s' z ∧ z.length = (l.length + 1) / 2 ∧
+      (busVal s' inp z).all id = (busVal s inp l).all id)
+  | [], s, hwf, _ => by
+    simp only [andPairs]; exact Spec.pure hwf ⟨Bnd.nil s, rfl, rfl⟩
+  | [a], s, hwf, hb => by
+    simp only [andPairs]; exact Spec.pure hwf ⟨hb, by simp, rfl⟩
+  | a :: b :: rest, s, hwf, hb => by
+    simp only [andPairs]
+    refine Spec.bind (gateF_spec .and s a b hwf hb.head hb.tail.head) ?_
+    intro f s1 e1 hf
+    refine Spec.bind (andPairs_spec rest e1.wf (hb.tail.tail.mono e1)) ?_
+    intro r s2 e2 ⟨hr, hrl, hrv⟩
+    refine Spec.pure e2.wf ⟨Bnd.cons (hf.mono e2).1 hr, ?_, ?_⟩
+    · simp only [List.length_cons, hrl]; omega
+    · simp only [busVal_cons, List.all_cons, (hf.mono e2).2, hrv, busVal_ext e1 hb.tail.tail, eval_and, id]
+      rw [Bool.and_assoc]
+
+theorem andTree_spec {inp : List Bool} : ∀ (fuel : Nat) (l : List Nat) {s : St} (_ : WF s inp), Bnd s l →
+    l.length ≤ fuel + 2 → 2 ≤ l.length →
+    Spec inp s (andTree fuel l) (fun z s' => Bnd s' z ∧ z.length = 2 ∧
+      (busVal s' inp z).all id = (busVal s inp l).all id)
+  | 0, l, s, hwf, hb, h1, h2 => by
+    simp only [andTree]; exact Spec.pure hwf ⟨hb, by omega, rfl⟩
+  | fuel + 1, l, s, hwf, hb, h1, h2 => by
+    simp only [andTree]
+    split
+    · next hgt =>
+      refine Spec.bind (andPairs_spec l hwf hb) ?_
+      intro l' s1 e1 ⟨hb', hl', hv'⟩
+      refine (andTree_spec fuel l' e1.wf hb' (by omega) (by omega)).mono ?_
+      intro z s2 _ ⟨hz, hzl, hzv⟩
+      exact ⟨hz, hzl, by rw [hzv, hv']⟩
+    · next hle => exact Spec.pure hwf ⟨hb, by omega, rfl⟩
+
+theorem all_beq_zip : ∀ (xs ys : List Bool), xs.length = ys.length →
+    ((xs.zip ys).map fun p => p.1 == p.2).all id = decide (xs = ys)
+  | [], [], _ => by simp
+  | [], _ :: _, h => by simp at h
+  | _ :: _, [], h => by simp at h
+  | x :: xs, y :: ys, h => by
+    simp only [List.length_cons, Nat.add_right_cancel_iff] at h
+    simp only [List.zip_cons_cons, List.map_cons, List.all_cons, id, all_beq_zip xs ys h, List.cons.injEq]
+    cases x <;> cases y <;> simp
+
+/-- `NewEqComparator`: the result bit is `toNat x = toNat y`. -/
+theorem eqComparator_spec {s : St} {inp : List Bool} (hwf : WF s inp) {x y : List Nat}
+    (hx : Bnd s x) (hy : Bnd s y) (hne : 0 < max x.length y.length) :
+    Spec inp s (eqComparator x y) (fun z s' => Bnd s' z ∧
+      busVal s' inp z = [decide (toNat (busVal s inp x) = toNat (busVal s inp y))]) := by
+  unfold eqComparator
+  refine Spec.bind (zeroPad_spec hwf hx hy) ?_
+  intro p s1 e1 ⟨hp1, hp2, hv1, hv2⟩
+  have hlen1 : p.1.length = max x.length y.length := by
+    have := congrArg List.length hv1; simp at this; omega
+  have hlen2 : p.2.length = max x.length y.length := by
+    have := congrArg List.length hv2; simp at this; omega
+  have hzl : (p.1.zip p.2).length = max x.length y.length := by simp [hlen1, hlen2]
+  have hbz := BndP.zip hp1 hp2
+  have hfin : ((pairVals s1 inp (p.1.zip p.2)).map fun q => q.1 == q.2).all id =
+      decide (toNat (busVal s inp x) = toNat (busVal s inp y)) := by
+    rw [pairVals_zip, all_beq_zip _ _ (by simp [hlen1, hlen2]), hv1, hv2]
+    have := padTo_eq_iff (busVal s inp x) (busVal s inp y) (max x.length y.length) (by simp; omega) (by simp; omega)
+    simp only [this]
+  split
+  · next a b heq =>
+    rw [heq] at hbz hfin
+    refine (gateF_spec .xnor s1 a b e1.wf hbz.head.1 hbz.head.2).map ?_
+    intro r s2 _ hr
+    refine ⟨Bnd.cons hr.1 (Bnd.nil _), ?_⟩
+    simp only [busVal_cons, busVal_nil, hr.2, eval_xnor]
+    simpa using hfin
+  · next hne1 =>
+    have hl2 : 2 ≤ (p.1.zip p.2).length := by
+      rcases hc : p.1.zip p.2 with _ | ⟨q, _ | ⟨q', r⟩⟩
+      · rw [hc] at hzl; simp at hzl; omega
+      · exact absurd hc (by obtain ⟨a, b⟩ := q; exact hne1 a b)
+      · simp
+    refine Spec.bind (xnorBits_spec _ e1.wf hbz) ?_
+    intro flags s2 e2 ⟨hfb, hfv⟩
+    have hfl : flags.length = (p.1.zip p.2).length := by
+      have := congrArg List.length hfv; simpa using this
+    refine Spec.bind (andTree_spec flags.length flags e2.wf hfb (by omega) (by omega)) ?_
+    intro fl s3 e3 ⟨hflb, hfll, hflv⟩
+    obtain ⟨f0, f1, rfl⟩ : ∃ f0 f1, fl = [f0, f1] := by
+      rcases fl with _ | ⟨f0, _ | ⟨f1, _ | _⟩⟩ <;> simp at hfll
+      exact ⟨f0, f1, rfl⟩
+    refine (gateF_spec .and s3 f0 f1 e3.wf hflb.head hflb.tail.head).map ?_
+    intro r s4 _ hr
+    refine ⟨Bnd.cons hr.1 (Bnd.nil _), ?_⟩
+    simp only [busVal_cons, busVal_nil, hr.2, eval_and, List.getD_cons_zero, List.getD_cons_succ]
+    rw [hfv] at hflv
+    simp only [busVal_cons, busVal_nil, List.all_cons, List.all_nil, Bool.and_true, id] at hflv
+    rw [hflv, hfin]
+
+theorem neqComparator_spec {s : St} {inp : List Bool} (hwf : WF s inp) {x y : List Nat}
+    (hx : Bnd s x) (hy : Bnd s y) (hne : 0 < max x.length y.length) :
+    Spec inp s (neqComparator x y) (fun z s' => Bnd s' z ∧
+      busVal s' inp z = [decide (toNat (busVal s inp x) ≠ toNat (busVal s inp y))]) := by
+  unfold neqComparator
+  refine Spec.bind (eqComparator_spec hwf hx hy hne) ?_
+  intro e s1 e1 ⟨heb, hev⟩
+  obtain ⟨e0, rfl⟩ : ∃ e0, e = [e0] := by
+    have := congrArg List.length hev
+    rcases e with _ | ⟨e0, _ | _⟩ <;> simp at this
+    exact ⟨e0, rfl⟩
+  simp only [busVal_cons, busVal_nil, List.cons.injEq, and_true] at hev
+  refine (inv_spec e1.wf ⟨heb.head, hev⟩).map ?_
+  intro r s2 _ hr
+  refine ⟨Bnd.cons hr.1 (Bnd.nil _), ?_⟩
+  simp [hr.2]
+
+/-! ### logical operations and bit tests -/
+
+theorem val_getD {s : St} {inp : List Bool} (ws : List Nat) (i : Nat) (h : i < ws.length) :
+    s.val inp (ws.getD i 0) = (busVal s inp ws).getD i false := by
+  rw [List.getD_eq_getElem?_getD, List.getD_eq_getElem?_getD, List.getElem?_eq_getElem h,
+    List.getElem?_eq_getElem (by simpa using h)]
+  simp [busVal]
+
+theorem getD_bnd {s : St} {ws : List Nat} (hb : Bnd s ws) (i : Nat) (h : i < ws.length) :
+    ws.getD i 0 < s.next := by
+  apply hb
+  rw [List.getD_eq_getElem?_getD, List.getElem?_eq_getElem h]
+  simp
+
+theorem logicalAnd_spec {s : St} {inp : List Bool} (hwf : WF s inp) {x y : List Nat}
+    (hx : Bnd s x) (hy : Bnd s y) (hlx : 0 < x.length) (hly : 0 < y.length) :
+    Spec inp s (logicalAnd x y) (fun z s' => Bnd s' z ∧
+      busVal s' inp z = [(busVal s inp x).getD 0 false && (busVal s inp y).getD 0 false]) := by
+  unfold logicalAnd
+  refine (gateF_spec .and s _ _ hwf (getD_bnd hx 0 hlx) (getD_bnd hy 0 hly)).map ?_
+  intro r s1 _ hr
+  refine ⟨Bnd.cons hr.1 (Bnd.nil _), ?_⟩
+  simp only [busVal_cons, busVal_nil, hr.2, eval_and, val_getD x 0 hlx, val_getD y 0 hly]
+
+theorem logicalOr_spec {s : St} {inp : List Bool} (hwf : WF s inp) {x y : List Nat}
+    (hx : Bnd s x) (hy : Bnd s y) (hlx : 0 < x.length) (hly : 0 < y.length) :
+    Spec inp s (logicalOr x y) (fun z s' => Bnd s' z ∧
+      busVal s' inp z = [(busVal s inp x).getD 0 false || (busVal s inp y).getD 0 false]) := by
+  unfold logicalOr
+  refine (orF_spec s _ _ hwf (getD_bnd hx 0 hlx) (getD_bnd hy 0 hly)).map ?_
+  intro r s1 _ hr
+  refine ⟨Bnd.cons hr.1 (Bnd.nil _), ?_⟩
+  simp only [busVal_cons, busVal_nil, hr.2, val_getD x 0 hlx, val_getD y 0 hly]
+
+/-- `NewBitSetTest`: bit `index` of `x`, 0 when `index` is outside `x`. -/
+theorem bitSetTest_spec {s : St} {inp : List Bool} (hwf : WF s inp) {x : List Nat} (index : Nat)
+    (hx : Bnd s x) :
+    Spec inp s (bitSetTest x index) (fun z s' => Bnd s' z ∧
+      busVal s' inp z = [(busVal s inp x).getD index false]) := by
+  unfold bitSetTest
+  refine Spec.bind (zeroWire_spec hwf) ?_
+  intro w s1 e1 hw
+  split
+  · next hlt =>
+    refine (gate_spec .xor e1.wf (Holds.mono e1 ⟨getD_bnd hx index hlt, rfl⟩) hw).map ?_
+    intro r s2 _ hr
+    refine ⟨Bnd.cons hr.1 (Bnd.nil _), ?_⟩
+    simp only [busVal_cons, busVal_nil, hr.2, eval_xor, val_getD x index hlt, Bool.bne_false]
+  · next hge =>
+    refine Spec.pure e1.wf ⟨Bnd.cons hw.1 (Bnd.nil _), ?_⟩
+    have : (busVal s inp x).getD index false = false := by
+      rw [List.getD_eq_getElem?_getD, List.getElem?_eq_none (by simp; omega)]; rfl
+    simp only [busVal_cons, busVal_nil, hw.2, this]
+
+/-- `NewBitClrTest`: negated bit `index` of `x`, 1 when outside. -/
+theorem bitClrTest_spec {s : St} {inp : List Bool} (hwf : WF s inp) {x : List Nat} (index : Nat)
+    (hx : Bnd s x) :
+    Spec inp s (bitClrTest x index) (fun z s' => Bnd s' z ∧
+      busVal s' inp z = [!(busVal s inp x).getD index false]) := by
+  unfold bitClrTest
+  refine Spec.bind (oneWire_spec hwf) ?_
+  intro w s1 e1 hw
+  split
+  · next hlt =>
+    refine (gate_spec .xor e1.wf (Holds.mono e1 ⟨getD_bnd hx index hlt, rfl⟩) hw).map ?_
+    intro r s2 _ hr
+    refine ⟨Bnd.cons hr.1 (Bnd.nil _), ?_⟩
+    simp only [busVal_cons, busVal_nil, hr.2, eval_xor, val_getD x index hlt, Bool.bne_true]
+  · next hge =>
+    refine Spec.pure e1.wf ⟨Bnd.cons hw.1 (Bnd.nil _), ?_⟩
+    have : (busVal s inp x).getD index false = false := by
+      rw [List.getD_eq_getElem?_getD, List.getElem?_eq_none (by simp; omega)]; rfl
+    simp only [busVal_cons, busVal_nil, hw.2, this, Bool.not_false]
+
+/-- `NewMUX`: with `len(out) = max(len t, len f)` the result is the (zero
+padded) `t` when the condition bit is set, else `f`. -/
+theorem newMUX_spec {s : St} {inp : List Bool} (hwf : WF s inp) {t f : List Nat} {cond : Nat}
+    (ht : Bnd s t) (hf : Bnd s f) (hc : cond < s.next) :
+    Spec inp s (newMUX cond t f (max t.length f.length)) (fun z s' => ∃ r, z = some r ∧ Bnd s' r ∧
+      busVal s' inp r = if s.val inp cond then padTo (busVal s inp t) (max t.length f.length)
+        else padTo (busVal s inp f) (max t.length f.length)) := by
+  unfold newMUX
+  refine Spec.bind (zeroPad_spec hwf ht hf) ?_
+  intro p s1 e1 ⟨hp1, hp2, hv1, hv2⟩
+  have hlen1 : p.1.length = max t.length f.length := by
+    have := congrArg List.length hv1; simp at this; omega
+  have hlen2 : p.2.length = max t.length f.length := by
+    have := congrArg List.length hv2; simp at this; omega
+  simp only [hlen1, ne_eq, not_true_eq_false, if_false]
+  refine (muxBits_spec _ e1.wf cond (BndP.zip hp1 hp2) (Nat.lt_of_lt_of_le hc e1.next)).map ?_
+  intro r s2 _ ⟨hr, hrv⟩
+  refine ⟨r, rfl, hr, ?_⟩
+  rw [hrv, pairVals_zip, hv1, hv2, e1.val cond hc]
+  have hl : (padTo (busVal s inp t) (max t.length f.length)).length =
+      (padTo (busVal s inp f) (max t.length f.length)).length := by simp; omega
+  generalize padTo (busVal s inp t) (max t.length f.length) = T at *
+  generalize padTo (busVal s inp f) (max t.length f.length) = F at *
+  cases s.val inp cond
+  · simp only [Bool.false_eq_true, if_false]
+    rw [show (fun p : Bool × Bool => p.2) = Prod.snd from rfl, List.map_snd_zip (by omega)]
+  · simp only [if_true]
+    rw [show (fun p : Bool × Bool => p.1) = Prod.fst from rfl, List.map_fst_zip (by omega)]
+
 /-! ### the harness wrapper: inputs, prologue, `ret` -/
 
 theorem emptySt_wf {nIn : Nat} {inp : List Bool} (hl : inp.length = nIn) (hp : 0 < nIn) :
@@ -640,5 +1054,47 @@ theorem evalBuilder_spec {b : List Nat → List Nat → BM (List Nat)} {x y : Li
   simp only [evalBuilder, runBuilder]
   show R (busVal _ _ _)
   rw [hov]; exact hR
+
+theorem evalBuilder3_spec {b : List Nat → List Nat → List Nat → BM (List Nat)} {x y w : List Bool}
+    {R : List Bool → Prop}
+    (hb : ∀ (s : St) (inp : List Bool) (xw yw ww : List Nat), WF s inp → Bnd s xw → Bnd s yw → Bnd s ww →
+      busVal s inp xw = x → busVal s inp yw = y → busVal s inp ww = w →
+      Spec inp s (b xw yw ww) (fun z s' => Bnd s' z ∧ R (busVal s' inp z)))
+    (pro : Bool) (hpos : 0 < x.length + y.length + w.length) : R (evalBuilder3 b pro x y w) := by
+  have hl : (x ++ y ++ w).length = x.length + y.length + w.length := by simp <;> omega
+  have e0 := initSt_ext hl hpos pro
+  have hxw := inputWires_bnd e0 0 x.length (by simp <;> omega)
+  have hyw := inputWires_bnd e0 x.length y.length (by simp <;> omega)
+  have hww := inputWires_bnd e0 (x.length + y.length) w.length (by simp <;> omega)
+  have hxv : busVal (initSt (x.length + y.length + w.length) pro) (x ++ y ++ w) (inputWires 0 x.length) = x := by
+    rw [inputWires_val _ _ _ _ (by simp <;> omega)]; simp
+  have hyv : busVal (initSt (x.length + y.length + w.length) pro) (x ++ y ++ w)
+      (inputWires x.length y.length) = y := by
+    rw [inputWires_val _ _ _ _ (by simp <;> omega)]; simp [List.append_assoc]
+  have hwv : busVal (initSt (x.length + y.length + w.length) pro) (x ++ y ++ w)
+      (inputWires (x.length + y.length) w.length) = w := by
+    rw [inputWires_val _ _ _ _ (by simp <;> omega)]
+    have : (x ++ y ++ w).drop (x.length + y.length) = w := by
+      rw [List.drop_append_of_le_length (by simp <;> omega)]; simp
+    rw [this]; simp
+  obtain ⟨e1, hz, hR⟩ := hb _ _ _ _ _ e0.wf hxw hyw hww hxv hyv hwv
+  obtain ⟨e2, _, hov⟩ := retWires_spec _ e1.wf hz
+  simp only [evalBuilder3]
+  show R (busVal _ _ _)
+  rw [hov]; exact hR
+
+/-- From `z + y ≡ x (mod M)` with `z < M` to the signed form
+`z = (x - y) mod M`. -/
+theorem sub_mod_int (z x y M : Nat) (hz : z < M) (h : (z + y) % M = x % M) :
+    (z : Int) = ((x : Int) - (y : Int)) % (M : Int) := by
+  have hM : (0 : Int) < M := by omega
+  have h1 : ((z : Int) + y) % M = (x : Int) % M := by
+    have := congrArg (fun n : Nat => (n : Int)) h
+    simpa [Int.natCast_add] using this
+  have h2 : ((x : Int) - y) % M = (((z : Int) + y) - y) % M := by
+    rw [Int.sub_emod, ← h1, ← Int.sub_emod]
+  rw [h2]
+  have : (z : Int) + y - y = z := by omega
+  rw [this, Int.emod_eq_of_lt (by omega) (by omega)]
 
 end Mpc.Bld
